@@ -8,6 +8,7 @@ package fox
 //@ package fox
 
 //@ type flushErrorer = interface{ FlushError() error }
+//@ type bufPtr = *[]byte
 //@ type readDeadliner = interface{ SetReadDeadline(time.Time) error }
 //@ type writeDeadliner = interface{ SetWriteDeadline(time.Time) error }
 //@ type fullDuplexer = interface{ EnableFullDuplex() error }
@@ -75,7 +76,9 @@ package fox
 
 //@ -- the fast path (wrapped writer implements io.ReaderFrom) and the io.CopyBuffer fallback must
 //@ -- satisfy the same postcondition, stated once
-//@ func (*recorder).ReadFrom props C14 partial
+//@ func (*recorder).ReadFrom props C14
+//@   -- assumed: copyBufPool only ever holds *[]byte (its New function and the Put below)
+//@   assume-at after (*Pool).Get#1 : pool-type: dyntypeIs(call_result, bufPtr) && unbox(call_result, bufPtr) != nil
 //@   requires r != nil && r.ResponseWriter != nil && recINV(r) && !r.hijacked
 //@   modifies r.size, wBody[r.ResponseWriter], wFinal[r.ResponseWriter], wFirst[r.ResponseWriter], released
 //@   ensures inv: recINV(r)
